@@ -205,6 +205,8 @@ pub struct Params {
     pub max_polls: u64,
     /// loads performed by thread 0 count as search polls (direct-call and self-play modes)
     pub search_on_main: bool,
+    /// record every point at which another thread could have been run instead (systematic single-preemption sweeps)
+    pub record_opps: bool,
 }
 impl Default for Params {
     fn default() -> Self {
@@ -217,6 +219,7 @@ impl Default for Params {
             max_steps: 300_000,
             max_polls: 200_000,
             search_on_main: false,
+            record_opps: false,
         }
     }
 }
@@ -348,6 +351,7 @@ pub struct Inner {
     pub sig: u64,
     os_handles: Vec<std::thread::JoinHandle<()>>,
     pub faults: BTreeMap<&'static str, u64>,
+    pub opps: Vec<Decision>,
     pct_changes: Vec<u64>,
     pct_low: u64,
     poll_mark: u64,
@@ -508,6 +512,17 @@ impl Inner {
         };
         let occ = self.th[me].occ[pt as usize];
         self.th[me].occ[pt as usize] += 1;
+        if self.params.record_opps && runnable.len() > 1 && starved.is_none() && self.opps.len() < 4000 {
+            // polls are far too many to try them all: the first few, then powers of two
+            if pt != Pt::FlagLoad || occ < 4 || occ.is_power_of_two() {
+                for &t in &runnable {
+                    if t != default {
+                        let d = Decision { th: self.th[me].name.clone(), pt, occ, to: self.th[t].name.clone() };
+                        self.opps.push(d);
+                    }
+                }
+            }
+        }
 
         let choice = if starved.is_some() {
             self.bump("fairness-forced switch");
@@ -1145,6 +1160,7 @@ pub struct Outcome {
     pub polls: u64,
     pub now: u64,
     pub faults: BTreeMap<&'static str, u64>,
+    pub opps: Vec<Decision>,
     /// hash of the sequence of (role, point, role) at which context switches happened
     pub sig: u64,
     /// hash of the complete event log
@@ -1223,6 +1239,7 @@ where
         sig: 0xcbf29ce484222325,
         os_handles: vec![],
         faults: BTreeMap::new(),
+        opps: vec![],
         pct_changes: vec![],
         pct_low: 1 << 31,
         poll_mark: u64::MAX,
@@ -1318,6 +1335,7 @@ where
         polls: g.total_polls,
         now: g.now,
         faults: std::mem::take(&mut g.faults),
+        opps: std::mem::take(&mut g.opps),
         sig: g.sig,
         log_hash: h,
     }
